@@ -1,6 +1,7 @@
 // Harness of the App engine (C17 application lifecycle, C10 application/node part).
 //   app seq   -n N [-known tags]   sequential histories vs App/Seq.v (Coq cases) + Go monitors
 //   app conc  -n N                 hooked schedules of concurrent member deaths / stop (Coq cases)
+//   app hold  -n N                 histories with an application in state stopping (held members) vs App/Hold.v (Coq cases)
 //   app node  -n N [-known tags]   Node.Stop / StopForce with applications and stray processes (Go monitor)
 package main
 
@@ -25,7 +26,7 @@ func hasTag(l []string, t string) bool {
 
 func main() {
 	if len(os.Args) < 2 {
-		fmt.Fprintln(os.Stderr, "usage: app <seq|conc|node|nodechild> [flags]")
+		fmt.Fprintln(os.Stderr, "usage: app <seq|conc|hold|node|nodechild> [flags]")
 		os.Exit(2)
 	}
 	sub := os.Args[1]
@@ -46,6 +47,8 @@ func main() {
 		mainSeq(out, *n, *replay, kn)
 	case "conc":
 		mainConc(out, *n, *replay, kn)
+	case "hold":
+		mainHold(out, *n, *replay)
 	case "node":
 		mainNode(out, *n, *replay, kn)
 	case "nodechild":
